@@ -6,7 +6,7 @@ From Common Require Import Prelude.
 From C19 Require Import Model FactsDefs FactsCheckTS.
 Local Open Scope N_scope.
 
-(* TimeStamp: global is a static std::atomic<size_t>, value a std::atomic<size_t>, operator
+(* TimeStamp: global is a static, CONSTANT-INITIALISED std::atomic<size_t> (no global constructor), value a std::atomic<size_t>, operator
    size_t returns value, and nextValue() is `return global++` / `return global.fetch_add(1)`:
    ONE read-modify-write whose own result (the value before the increment) is returned *)
 Theorem facts_timestamp_counter : ts_wf gen_ts = true.
